@@ -299,6 +299,13 @@ static void describe_accept(const accept_t *a, char *buf, size_t sz)
     if (!a->transparent && !a->nh) snprintf(buf + o, sz - o, "(nothing)");
 }
 
+static int chan_diff(uint32_t a, uint32_t b)
+{
+    int m = 0;
+    for (int sh = 0; sh < 32; sh += 8) { int d = (int)((a >> sh) & 0xff) - (int)((b >> sh) & 0xff); if (d < 0) d = -d; if (d > m) m = d; }
+    return m;
+}
+
 static void check_colour(const request *q)
 {
     uint32_t narrow[W * H]; float wide[W * H * 4];
@@ -316,10 +323,20 @@ static void check_colour(const request *q)
     for (int i = 0; i < 3; i++) for (int j = 0; j < 3; j++) m[i][j] = FX(TM[q->tr][3 * i + j]) / 65536.0L;
 
     int compared = 0;
+    uint8_t single_valued[W * H]; memset(single_valued, 0, sizeof single_valued);
     for (int py = 0; py < H && !vf_failed(); py++)
         for (int px = 0; px < W && !vf_failed(); px++) {
             accept_t a; ref_pixel(q, &g, m, px, py, &a);
             if (a.skip) continue;
+            /* exactly on a discontinuity (coincident stops, period boundary, admissibility flip) the statement does not fix the side and the
+             * unmodified library itself picks it depending on the direction the scanline approaches it from: only pixels with a single
+             * accepted hull take part in the position-independence comparison below */
+            {
+                int sv = (a.nh == 1 && !a.transparent) || (a.nh == 0 && a.transparent);
+                /* the accepted hull itself must be narrow: a hull spanning both sides of a colour jump is a discontinuity too */
+                if (a.nh == 1) for (int k = 0; k < 4; k++) if (a.h[0].hi[k] - a.h[0].lo[k] > 1.0L) sv = 0;
+                single_valued[py * W + px] = (uint8_t)sv;
+            }
             compared++;
             uint32_t p = narrow[py * W + px];
             long double gn[4] = { p >> 24, (p >> 16) & 0xff, (p >> 8) & 0xff, p & 0xff };
@@ -349,6 +366,28 @@ static void check_colour(const request *q)
             }
             if (vf_verbose && px == 0) { char acc[900]; describe_accept(&a, acc, sizeof acc); printf("   row %d px0 got %08x accepted %s\n", py, p, acc); }
         }
+
+    /* position independence (needs no reference): a pixel's colour is a function of its own parameter t only, so fetching the
+     * image column by column (each pixel is then the first of its scanline fetch) must reproduce the full-width fetch bit for bit.
+     * This is what separates "took the other side of a discontinuity" (accepted above) from "depends on what was fetched before".
+     * The library steps t incrementally along a scanline, so the two fetches may differ in the last bit: each is within one 8-bit
+     * step of the true colour (the statement's tolerance), hence they must be within two steps of each other. */
+    if (!vf_failed() && !q->far) {
+        pixman_image_t *src = req_image(q);
+        if (src) {
+            uint32_t cols[W * H]; memset(cols, 0, sizeof cols);
+            pixman_image_t *dn = pixman_image_create_bits(PIXMAN_a8r8g8b8, W, H, cols, W * 4);
+            for (int px = 0; px < W; px++) pixman_image_composite32(PIXMAN_OP_SRC, src, NULL, dn, q->ox + px, q->oy, 0, 0, px, 0, 1, H);
+            vf_count_libcalls(W);
+            pixman_image_unref(dn); pixman_image_unref(src);
+            for (int i = 0; i < W * H; i++) if (single_valued[i] && chan_diff(cols[i], narrow[i]) > 2) {   /* each is within one step of the true colour, so within two of each other */
+                char key[64]; req_str(q, rs, sizeof rs);
+                snprintf(key, sizeof key, "c13-%s-depends-on-scanline-start", KNAME[q->kind]);
+                vf_violation(key, "%s: pixel (%d,%d) is %08x when the whole row is fetched but %08x when fetched on its own (same pixel, same t; more than two 8-bit steps apart)", rs, i % W, i / W, narrow[i], cols[i]);
+                break;
+            }
+        }
+    }
 
     /* evidence */
     int distinct = 0; uint32_t seen[W * H];
